@@ -116,6 +116,8 @@ JudgeFmt(e) ==
     ELSE IF ~e.nk.parse \/ ~e.nk.eqWant THEN <<"NewKey's key does not carry the parameters the format describes", "Equal parameters">>
     ELSE <<>>,
     IF kind = "private" THEN JudgePub(T, e.pub) ELSE <<>>,
+    IF e.junk.done /\ "panic" \in {e.junk.trunc, e.junk.flip, e.junk.pubTrunc, e.junk.fmtTrunc}
+      THEN <<"a manager panicked on a damaged serialized key / key format", "an error">> ELSE <<>>,
     IF e.case.interop THEN JudgePrim(T, p, kind, e.prim) ELSE <<>> >>)
 
 JudgePubFmt(e) ==
